@@ -106,6 +106,25 @@ func shapes() []shape {
 		s.Parts = []bytex.PartSpec{P("text/plain", "", "", txt, false)}
 		s.Attach = []bytex.FileSpec{F("a.bin", "", "", bin, true), F("b.bin", "", "", bin, false)}
 	})
+	add("attach-source-gone", func(s *bytex.MsgSpec) {
+		// a file that could be opened when it was attached and cannot be opened when the message is rendered
+		// (io/fs source, file-system source): the producer fails before emitting anything
+		s.Parts = []bytex.PartSpec{P("text/plain", "", "", txt, false)}
+		a, b := F("gone.bin", "", "", "", true), F("gone-too.txt", "8bit", "", "", true)
+		a.Src, b.Src = "iofsgone", "filegone"
+		s.Attach = []bytex.FileSpec{a, b}
+	})
+	add("embed-source-gone", func(s *bytex.MsgSpec) {
+		s.Parts = []bytex.PartSpec{P("text/html", "", "", html, false)}
+		e := F("gone.png", "", "", "", true)
+		e.Src = "iofsgone"
+		s.Embeds = []bytex.FileSpec{e}
+	})
+	add("attach-only-source-gone", func(s *bytex.MsgSpec) {
+		a := F("only.bin", "", "", "", true)
+		a.Src = "iofsgone"
+		s.Attach = []bytex.FileSpec{a}
+	})
 	add("embed-prod-fails-before", func(s *bytex.MsgSpec) {
 		s.Parts = []bytex.PartSpec{P("text/plain", "", "", txt, false)}
 		s.Embeds = []bytex.FileSpec{F("e.png", "", "", "", true)}
